@@ -69,6 +69,22 @@ let run_of = function
        hr_pairs = digest_list pairs; hr_fresh_resp = json_of fresp }, print_sexp xreqs = print_sexp xfreqs)
   | x -> raise (Sexp_error ("rs: " ^ print_sexp x))
 
+(* the response tree with identical error entries collapsed (errors are already sorted) *)
+let collapse_errors (j : json) : json =
+  match j with
+  | JObj ms ->
+    JObj (List.map (fun (k, v) ->
+      if string_of_bytes k = "errors" then
+        (k, match v with
+            | JArr items ->
+              let rec uniq = function
+                | a :: (b :: _ as rest) -> if json_eqb a b then uniq rest else a :: uniq rest
+                | l -> l in
+              JArr (uniq items)
+            | x -> x)
+      else (k, v)) ms)
+  | x -> x
+
 let is_exec_error (j : json) = match j with JObj [(k, _)] -> string_of_bytes k = "execute_error" | _ -> false
 
 let short s = if String.length s > 400 then String.sub s 0 400 ^ "..." else s
@@ -121,7 +137,13 @@ let handle_hist cfg useed fork join base runs : (string * string) list =
         let rec go i = function [] -> -1 | r :: rest -> if p i r then i else go (i + 1) rest in go 0 run in
       if not (history_transparent_b hb run) then begin
         let i = first_bad (fun i r -> not (json_eqb r.hr_resp (List.nth hb i).hb_fresh)) in
-        add "specfail" (Printf.sprintf "history_transparent %s opts=%s request=%d hit=%s || %s || got=%s" ctx opts i
+        (* classification aid only: do ALL deviating requests of this run differ from the fresh default
+           engine in nothing but the number of identical error entries? *)
+        let dup_only =
+          List.length hb = List.length run &&
+          List.for_all2 (fun (b : hbase) r -> json_eqb r.hr_resp b.hb_fresh || json_eqb (collapse_errors r.hr_resp) (collapse_errors b.hb_fresh)) hb run in
+        add "specfail" (Printf.sprintf "history_transparent dup_error_only=%s dedup_off=%s %s opts=%s request=%d hit=%s || %s || got=%s"
+                          (if dup_only then "t" else "f") (if contains opts "d-" then "t" else "f") ctx opts i
                           (if i >= 0 && (List.nth run i).hr_hit then "t" else "f") (nth_info i)
                           (if i >= 0 then short (sexp_of_json (List.nth run i).hr_resp) else "length mismatch"))
       end;
